@@ -90,4 +90,5 @@ def queries(tier, prop='C03'):
         if first is not None: cfg['FIRST'] = first
         out.append(dict(entry=e, cfg=cfg, unwind=cap + 3, unwindset=uw(cap * 8 + 18), object_bits=14,
                         budget=300 if tier == 'quick' else 2400, ub=ub, nofunc=ub))
+    for q_ in out: q_['lazy_trace'] = True   # verdict first, counterexample trace only when an obligation fails (engine/runner.py)
     return out
